@@ -1,4 +1,5 @@
 import Refine.Lemmas.ReconParRoundoff
+import Refine.Lemmas.ReconParRadii
 
 /-!
   C10, parallel part: `ref_recon_roundoff_limit` on a distributed mesh (the floor step of the multiscale pipeline,
@@ -10,6 +11,7 @@ namespace Refine.Props.C10Par
 open Refine Refine.Model.Geom Refine.Model.ReconPar Refine.ScalarReal Refine.ReconParGhost Refine.ReconParRoundoff
 open Refine.Model.Comm (World RefType)
 open Refine.Model.Metric (roundoffLimit radii SPD)
+open Refine.ReconParMesh Refine.ReconParCells Refine.ReconParRadii
 
 /-- **after `ref_recon_roundoff_limit` every tensor held by every rank — owned or ghost — is positive definite**, for
     every rank count, every distribution satisfying the structural invariant `WorldOK`, every reconstructed Hessian
@@ -110,7 +112,7 @@ theorem roundoffLimitPar_spd (gxyz : List (V3 ℝ)) (w : World Rank) (hw : World
         exact absurd he (by simp)
       rw [List.getElem?_map, List.getElem?_map, getElem?_of_lt _ hj, Option.map_some, Option.map_some,
         Option.some.injEq] at he
-      rw [he, rowM6_m6row, toMat_ofMat]
+      rw [he, Refine.ReconParRoundoff.rowM6_m6row, toMat_ofMat]
       exact (hms k rk xk hrk hxk).2 _ (List.getElem_mem hj)
     by_cases hp : w[me].part[i] = me
     · exact key me _ _ i hr hx (hown hp)
@@ -122,6 +124,38 @@ theorem roundoffLimitPar_spd (gxyz : List (V3 ℝ)) (w : World Rank) (hw : World
         exact absurd hro (by simp)
       have hxo := getElem?_of_lt ms hpk
       exact key _ ro _ j hro hxo (hghost hp ro j _ hro hj (hrowsget _ _ hxo))
+
+/-- **the eigenvalue floor does not depend on the partition**: at a stored vertex all of whose cells are stored on
+    the rank (clause (ii) of the distributed invariant at the cell level: every owned vertex) the radius
+    `ref_recon_roundoff_limit` computes from the rank's own edges — the shortest edge at the vertex, `-1` when there
+    is none — is the radius of the global mesh, whatever the order in which the rank walks its cells (a minimum is
+    exact in floating point too).  A floor taken from a rank-local mesh size would break this (mutation caught by the
+    oracle of stream `reconpar_roundoff`). -/
+theorem roundoff_radius_partition_independent (gxyz : List (V3 ℝ)) (gcells : List Refine.Model.Recon.Cell) (r : Rank)
+    (i : Nat) (hnd : r.l2g.Nodup) (hi : i < r.l2g.length) (hg : gOf r.l2g i < gxyz.length)
+    (hL : ∀ c ∈ r.cells, CellWF c) (hG : ∀ c ∈ gcells, CellWF c)
+    (hnodes : ∀ c ∈ r.cells, ∀ v ∈ c.nodes, v < r.l2g.length)
+    (h : ((r.cells.map (globCell r.l2g)).filter (cellTouches (gOf r.l2g i))).Perm
+      (gcells.filter (cellTouches (gOf r.l2g i)))) :
+    (radii (r.xyz gxyz) r.cells)[i]? = (radii gxyz gcells)[gOf r.l2g i]? :=
+  radii_local_eq_global gxyz gcells r i hnd hi hg hL hG hnodes h
+
+/-- … with its hypotheses met at the vertex `v1` owned by rank 1 of a 2-rank world (two tets, local numbering
+    shuffled): both tets around it are stored -/
+example (gxyz : List (V3 ℝ)) (hlen : gxyz.length = 5) :
+    (radii ((⟨[1, 2, 3, 4, 0], [1, 1, 1, 1, 0],
+        [⟨.tet, [0, 1, 2, 3]⟩, ⟨.tet, [4, 0, 1, 2]⟩], []⟩ : Rank).xyz gxyz)
+      [⟨.tet, [0, 1, 2, 3]⟩, ⟨.tet, [4, 0, 1, 2]⟩])[0]? =
+    (radii gxyz [⟨.tet, [0, 1, 2, 3]⟩, ⟨.tet, [1, 2, 3, 4]⟩])[1]? :=
+  roundoff_radius_partition_independent gxyz [⟨.tet, [0, 1, 2, 3]⟩, ⟨.tet, [1, 2, 3, 4]⟩]
+    ⟨[1, 2, 3, 4, 0], [1, 1, 1, 1, 0], [⟨.tet, [0, 1, 2, 3]⟩, ⟨.tet, [4, 0, 1, 2]⟩], []⟩ 0
+    (by decide) (by decide) (by rw [hlen]; decide) (by intro c hc; simp at hc; rcases hc with rfl | rfl <;> rfl)
+    (by intro c hc; simp at hc; rcases hc with rfl | rfl <;> rfl)
+    (by decide)
+    (by
+      show List.Perm [(⟨.tet, [1, 2, 3, 4]⟩ : Refine.Model.Recon.Cell), ⟨.tet, [0, 1, 2, 3]⟩]
+        [⟨.tet, [0, 1, 2, 3]⟩, ⟨.tet, [1, 2, 3, 4]⟩]
+      exact List.Perm.swap _ _ _)
 
 /-! ### non-vacuity -/
 
